@@ -69,10 +69,15 @@ var properties = []Property{
 	 {ID: "C09"}, {ID: "C10"},
 	{ID: "C11"}, 
 	{ID: "C12", Title: "Every token reports the line and column of its first character",
-		Rules:     []string{"POS.capture"},
+		Rules:     []string{"POS.capture", "POS.stale"},
 		Technique: "same abstract interpretation: where, relative to the first Read, each state samples Line/Column/PeekLine/PeekColumn",
 	},
-	 {ID: "C13"}, {ID: "C14"}, {ID: "C15"}, {ID: "C16"}, {ID: "C17"}, {ID: "C18"}, {ID: "C19"}, {ID: "C20"},
+	 {ID: "C13"}, {ID: "C14"}, 
+	{ID: "C15", Title: "Tokenizer options only drop or rewrite whole tokens, never re-segment",
+		Rules:     []string{"OPT.chain", "OPT.nointerference", "PANIC.progress", "POS.stale"},
+		Technique: "exhaustive abstract evaluation of one loop iteration over the finite partition (token class × state kind × last type × 2^7 option sets); information-flow check from options to scanner movement",
+	},
+	 {ID: "C16"}, {ID: "C17"}, {ID: "C18"}, {ID: "C19"}, {ID: "C20"},
 }
 
 func init() {
